@@ -34,7 +34,8 @@ AtP(k, v)  == [k |-> k, v |-> v]
 Ats        == IF Q THEN {AtP("none", 0), AtP("start", 0), AtP("end", 0), AtP("lit", 3)}
                    ELSE {AtP("none", 0), AtP("start", 0), AtP("end", 0), AtP("lit", 0), AtP("lit", 3)}
 \* "merged": the selector next to a broader selector of the same metric, so that MergeSelects rewrites it
-Contexts   == IF Q THEN {"bare", "sumby", "merged"} ELSE {"bare", "sumby", "mul1", "merged"}
+\* "ts": the selector as the argument of timestamp() (the selector then hands out the time of the sample it selects)
+Contexts   == IF Q THEN {"bare", "sumby", "merged", "ts"} ELSE {"bare", "sumby", "mul1", "merged", "ts"}
 
 Kinds == {"-", "f", "s"}
 Layouts == {lay \in [0..MaxT -> Kinds] : Cardinality({u \in 0..MaxT : lay[u] # "-"}) <= MaxSamples}
@@ -63,6 +64,7 @@ SelNodeOf(x) == SelAt(<<Metric("m")>>, x.off, AtK(x), AtV(x))
 PlanOf(x) == CASE x.ctx = "bare"  -> <<SelNodeOf(x)>>
                [] x.ctx = "paren" -> <<SelNodeOf(x), Paren(1)>>
                [] x.ctx = "sumby" -> <<SelNodeOf(x), Agg("sum", FALSE, <<>>, <<1>>)>>
+               [] x.ctx = "ts"    -> <<SelNodeOf(x), Fn("timestamp", <<1>>)>>
                [] x.ctx = "mul1"  -> <<SelNodeOf(x), Num(1), Bin("*", 1, 2)>>
                [] x.ctx = "merged" -> <<SelAt(<<Metric("m"), Eq("a", "x")>>, x.off, AtK(x), AtV(x)), Agg("sum", TRUE, <<>>, <<1>>),
                                         Sel(<<Metric("m")>>), Agg("count", TRUE, <<>>, <<3>>), Bin("*", 2, 4)>>
@@ -99,5 +101,7 @@ Interesting(x) ==
 Hash(x) == (x.rag * 41 + x.lb * 7 + x.qlb * 13 + (x.off + 5) * 17 + x.step * 19 + x.start * 23 + x.n * 29
             + Cardinality({u \in 0..MaxT : x.lay[u] = "f"}) * 31
             + FoldSet(LAMBDA u, acc : acc + (IF x.lay[u] = "-" THEN 0 ELSE IF x.lay[u] = "f" THEN u + 1 ELSE 3 * (u + 1)), 0, 0..MaxT) * 37)
-EmitSel == IF ((g.rag = 0 \/ g.step >= 2) /\ Interesting(g) /\ Pick(Hash(g), 0, Mod) = Seed % Mod) THEN Emit(ScnOf(g)) ELSE TRUE
+\* (timestamp() over a selector that has both an @ pin and an offset is left to C06: the pinned reference ignores the
+\*  offset there - a quirk of its own that contradicts the rule this property states, see KNOWN_FINDINGS)
+EmitSel == IF ((g.ctx # "ts" \/ AtK(g) = "none" \/ g.off = 0) /\ (g.rag = 0 \/ g.step >= 2) /\ Interesting(g) /\ Pick(Hash(g), 0, Mod) = Seed % Mod) THEN Emit(ScnOf(g)) ELSE TRUE
 =============================================================================
